@@ -70,9 +70,8 @@ def escape(value: str) -> str:
 def raw_cell_at(physical_line: str, column: int):
     """Text of the raw cell starting at 1-based `column` up to the next unescaped pipe,
     unescaped and trimmed (used by the location-slice monitor G5)."""
-    s = physical_line[column - 1:]
     parts = []
-    for m in _TOK.finditer(s):
+    for m in _TOK.finditer(physical_line, column - 1):
         t = m.group(0)
         if t == "|":
             break
